@@ -5,6 +5,9 @@
 package vth
 
 import (
+	"context"
+
+	"google.golang.org/protobuf/proto"
 	"google.golang.org/protobuf/types/known/fieldmaskpb"
 
 	"github.com/smart-core-os/sc-golang/internal/testproto"
@@ -141,4 +144,113 @@ func Touches(m *fieldmaskpb.FieldMask, p string) bool {
 		}
 	}
 	return false
+}
+
+// ---- isolation driver for collection-shaped trait models (C07) ----
+
+// CollOps adapts one collection of a trait model (hails, publications, consumables, ...) to the isolation driver.
+// Absent operations are nil. Messages are proto.Message so that one driver serves every model.
+type CollOps struct {
+	New      func(variant int, id string) proto.Message // a populated message; id "" lets the model choose
+	ID       func(m proto.Message) string
+	Scribble func(m proto.Message) // the caller modifies a message it has written
+	Create   func(m proto.Message) (proto.Message, error)
+	Get      func(id string, mask *fieldmaskpb.FieldMask) proto.Message // nil mask: no read mask
+	Update   func(id string, m proto.Message) (proto.Message, error)
+	Delete   func(id string) (proto.Message, error)
+	List     func(mask *fieldmaskpb.FieldMask) []proto.Message
+	// Sub subscribes to the whole collection and returns a non-blocking poll of the next change (old, new values)
+	Sub func(ctx context.Context) func() (old, new proto.Message, ok bool)
+}
+
+type kept struct {
+	m, copy proto.Message
+	label   string
+}
+
+// CollectionIsolation drives create / read / list / subscribe / masked reads / update / delete on one collection and
+// checks that every message that crossed the API stays what it was (deep compare + the engine's freeze monitor), and
+// that the store is unaffected by the caller modifying a written message and by masked reads.
+func CollectionIsolation(o CollOps) {
+	var keptMsgs []kept
+	isNil := func(m proto.Message) bool { return m == nil || !m.ProtoReflect().IsValid() }
+	keep := func(m proto.Message, label string) {
+		if isNil(m) {
+			return
+		}
+		keptMsgs = append(keptMsgs, kept{m, proto.Clone(m), label})
+		vt.Freeze(m, label)
+	}
+	recheck := func(after string) {
+		for _, k := range keptMsgs {
+			vt.Assert(proto.Equal(k.m, k.copy), k.label+"-unchanged-after-"+after)
+		}
+		vt.CheckFrozen()
+	}
+	w1 := o.New(1, "")
+	r1, err := o.Create(w1)
+	if err != nil || isNil(r1) {
+		vt.Reach("model-rejects-the-generated-message")
+		return
+	}
+	id := o.ID(r1)
+	r1c := proto.Clone(r1)
+	o.Scribble(w1)
+	g1 := o.Get(id, nil)
+	vt.Assert(proto.Equal(g1, r1c), "store-unaffected-by-caller-modifying-the-created-message")
+	keep(r1, "create-result")
+	keep(g1, "get-result")
+	for _, m := range o.List(nil) {
+		keep(m, "list-result")
+	}
+	ctx, cancel := context.WithCancel(context.Background())
+	defer cancel()
+	var poll func() (proto.Message, proto.Message, bool)
+	drain := func(label string) {
+		if poll == nil {
+			return
+		}
+		vt.Settle()
+		for i := 0; i < 3; i++ {
+			ov, nv, ok := poll()
+			if !ok {
+				return
+			}
+			keep(ov, label+"-old-value")
+			keep(nv, label+"-new-value")
+		}
+	}
+	if o.Sub != nil {
+		poll = o.Sub(ctx)
+		drain("pull-seed")
+		recheck("subscribing")
+	}
+	empty := &fieldmaskpb.FieldMask{}
+	keep(o.Get(id, empty), "masked-get-result")
+	for _, m := range o.List(empty) {
+		keep(m, "masked-list-result")
+	}
+	recheck("masked-reads")
+	vt.Assert(proto.Equal(o.Get(id, nil), r1c), "masked-reads-leave-the-store-unchanged")
+	if o.Update != nil {
+		w2 := o.New(2, id)
+		r2, err := o.Update(id, w2)
+		if err == nil && !isNil(r2) {
+			r2c := proto.Clone(r2)
+			o.Scribble(w2)
+			vt.Assert(proto.Equal(o.Get(id, nil), r2c), "store-unaffected-by-caller-modifying-the-updated-message")
+			keep(r2, "update-result")
+			drain("pull-update")
+		}
+		recheck("update")
+	}
+	if o.Delete != nil {
+		d, err := o.Delete(id)
+		if err == nil {
+			keep(d, "delete-result")
+			drain("pull-remove")
+		}
+		recheck("delete")
+	}
+	vt.Reach("done")
 }
